@@ -202,7 +202,9 @@ CLAIMS = {
         "well-formed start value. The model is tied to the code on every run: PRNG-generated programs (forced recursion shapes, simple-join special cases, "
         "size-skewed inputs) are compiled with the real ascent! macro and their relations (with multiplicities) and iteration counts diffed against the model "
         "and a naive least-model oracle. Tie D: versions_base is re-translated from ascent_mir.rs on every run and proved equal to the model's versionsBase for all n "
-        "(Props/TieD.lean versionsBase_eq).",
+        "(Props/TieD.lean versionsBase_eq). Plan level (Model/Plan.lean, Props/C01Plan.lean): the index look-ups on the columns chosen by the compiler, the "
+        "nested loops of a simple join and the swapped copy of a reorderable rule enumerate the same environments as the filter semantics, for every rule "
+        "(index_selection_sound_complete, reordering_sound; guard_needed shows the reorderable flag is necessary).",
    design_ref="DESIGN.md §8 C01, §3.1", note=ENGINE_NOTE),
  "C05": dict(
    engine="tie-B-engine",
